@@ -32,6 +32,22 @@ def const_str(prog: Program, fi: FuncInfo, expr: ast.AST, depth: int = 4) -> str
         return expr.value
     if depth <= 0:
         return None
+    if isinstance(expr, ast.BinOp) and isinstance(expr.op, ast.Add):
+        a, b = const_str(prog, fi, expr.left, depth - 1), const_str(prog, fi, expr.right, depth - 1)
+        return a + b if a is not None and b is not None else None
+    if isinstance(expr, ast.JoinedStr):
+        parts = []
+        for v in expr.values:
+            if isinstance(v, ast.Constant):
+                parts.append(str(v.value))
+            elif isinstance(v, ast.FormattedValue) and v.format_spec is None:
+                p = const_str(prog, fi, v.value, depth - 1)
+                if p is None:
+                    return None
+                parts.append(p)
+            else:
+                return None
+        return "".join(parts)
     if isinstance(expr, ast.Name):
         vals = all_def_values(fi.node, expr.id)
         if len(vals) == 1 and vals[0] is not None and expr.id not in fi.param_names():
@@ -131,6 +147,7 @@ class Effect:
     subject: ast.AST | None = None  # file / queue / process / communicator expression
     mode: str | None = None
     leaf: str | None = None
+    source: ast.AST | None = None  # rename/replace: the file that is moved onto `subject`
 
     def __repr__(self) -> str:
         return f"<{self.kind}.{self.op} {unparse(self.subject)[:40]} {self.mode or ''} {self.leaf or ''}>"
@@ -200,12 +217,18 @@ def classify_call(prog: Program, fi: FuncInfo, call: ast.Call) -> list[Effect]:
         out.append(Effect("fs", "open", call, recv, mode))
     if any(e in ("shutil.rmtree",) for e in ext):
         out.append(Effect("fs", "rmtree", call, call.args[0] if call.args else None))
-    if attr in ("mkdir", "unlink", "rmdir", "touch", "rename", "replace", "write_text", "write_bytes") and not tg.funcs():
+    if attr in ("mkdir", "unlink", "rmdir", "touch", "write_text", "write_bytes") and not tg.funcs():
         rt = env.type_of(recv)
         if any(x[0] == "ext" and x[1].startswith("pathlib") for x in rt) or not rt:
             out.append(Effect("fs", attr, call, recv))
-    if any(e in ("os.replace", "os.rename", "os.remove", "os.unlink", "shutil.move") for e in ext):
-        out.append(Effect("fs", ext[0].split(".")[-1], call, call.args[0] if call.args else None))
+    if attr in ("rename", "replace") and not tg.funcs() and call.args:
+        rt = env.type_of(recv)
+        if any(x[0] == "ext" and x[1].startswith("pathlib") for x in rt) or not rt:
+            out.append(Effect("fs", "replace", call, call.args[0], source=recv))
+    if any(e in ("os.replace", "os.rename", "shutil.move") for e in ext) and len(call.args) > 1:
+        out.append(Effect("fs", "replace", call, call.args[1], source=call.args[0]))
+    if any(e in ("os.remove", "os.unlink") for e in ext):
+        out.append(Effect("fs", "unlink", call, call.args[0] if call.args else None))
     if attr in ("exists", "is_file", "is_dir") and not tg.funcs():
         out.append(Effect("fs", "exists", call, recv))
     if attr == "tofile" and not tg.funcs():
@@ -483,8 +506,11 @@ def eval_test(expr: ast.AST, env: dict):
                 ts = [truth(x) for x in v]
                 return any(ts) if e.func.id == "any" else all(ts)
             raise Unknown("any/all")
-        if isinstance(e, ast.Call) and isinstance(e.func, ast.Name) and e.func.id == "isinstance":
-            raise Unknown("isinstance")
+        if isinstance(e, ast.Call):
+            fn = (dotted(e.func) or "").split(".")[-1] + "()"
+            if fn in env:
+                return env[fn]
+            raise Unknown(fn)
         raise Unknown(type(e).__name__)
 
     def truth(v):
